@@ -343,8 +343,8 @@ structure Arch where
 /-- `open_archive`: map the file, write position = its size. -/
 def archOpen (f : Bytes) : Arch := ⟨f, f.length, f.length⟩
 
-/-- `write_content` of one record `rec` at the write position; `grewALot new old` is the
-"grew by > 64 MiB or ratio > 2.0" remap test. -/
+/-- `write_content` of one record `rec` at the write position; `grewALot new old` is the remap
+test (`new_size != current_size` since /repo 6172e03; the theorems hold for every such test). -/
 def archWrite (grewALot : Nat → Nat → Bool) (a : Arch) (rec : Bytes) : Arch :=
   let f' := writeAt a.file a.used rec
   { file := f'
